@@ -42,9 +42,9 @@ static inline Error run(String& sb, const BaseEmitter* em, uint32_t id) {
 }
 
 // ---- labels without a name --------------------------------------------------------------------------------------------------
-// no emitter / an emitter that is not attached to a code holder: "L<id>" (ids below 4096: the decimal parse-back of wider numbers is slow for SAT)
+// no emitter / an emitter that is not attached to a code holder: "L<id>" (ids below 1024: the decimal parse-back of wider numbers is slow for SAT)
 HARNESS h_label_noemitter() {
-  uint32_t id = nondet_u16() & 0xFFF;
+  uint32_t id = nondet_u16() & 0x3FF;
   bool detached = nondet_bool();
   asm_store.v._code = nullptr;
   String sb; make_string<255>(sb);
